@@ -61,6 +61,27 @@ def gen(ctx):
                               nsteps=rng.randint(2, 4))
         c["mode"] = mode
         cfgs.append(c)
+    # film-coefficient walls with stepped axial profiles on more points than the tube has planes, seen from slices between the data points
+    for _ in range(ctx.budget(6, 30)):
+        g = rng.choice([(10.0, 1.0, 10.0), (12.7, 2.0, 100.0), (25.4, 0.5, 7.5)])
+        scale = (g[1] / 3.0) ** 2 / 5.0
+        c = tc.gen_config(rng, len(cfgs), dim=rng.choice([1, 2]), inner="film", outer=rng.choice([None, None, "conv"]),
+                          dt_choices=(scale * 1e3, scale * 1e6), rough=False, geom=g, varying=False)
+        nzb = rng.choice([4, 5, 6, 8])
+        cut = rng.randint(1, nzb - 2)
+        lo_T, hi_T = rng.choice([(300.0, 900.0), (650.0, 700.0), (900.0, 350.0)])
+        ft = [lo_T if k <= cut else hi_T for k in range(nzb)]
+        fm = [rng.choice([4.0, 64.0]) if k <= cut else rng.choice([0.125, 4.0]) for k in range(nzb)]
+        sp = c["inner"]
+        sp.update({"nz": nzb, "fluid_T": [tc.hx(v) for v in ft], "film": [tc.hx(v) for v in fm], "fluid_T_f": ft, "film_f": fm})
+        pl = g[2] * (rng.randint(0, nzb - 2) + rng.choice([0.5, 0.25, 0.8125])) / (nzb - 1)
+        c["plane"] = tc.hx(pl)
+        c["f"]["plane"] = pl
+        T0 = rng.choice([lo_T, hi_T, (lo_T + hi_T) / 2])
+        c["T0"] = tc.hx(T0)
+        c["f"]["T0"] = T0
+        c["mode"] = "two-sided"
+        cfgs.append(c)
     cfgs.append(h1_config(len(cfgs)))
     return cfgs
 
